@@ -191,6 +191,10 @@ class Precondition(Exception):
     """the tree is outside what the property promises (e.g. ensemble of unequal sizes)"""
 
 
+class Undrawn(Exception):
+    """a leaf the expression contains was not sampled at this call (the implementation skipped a child)"""
+
+
 class Impossible(Exception):
     """the scripted indices cannot be applied to this draw: the implementation asked the RNG for the wrong range"""
 
@@ -206,8 +210,9 @@ def ref_rows(s, k, b, tags):
     """rows (tuples) the k-th call must return; b = Built (leaf logs, masks, rng logs)."""
     op = s['op']
     if op == 'leaf':
-        log = b.leaves[s['id']].log
-        return gd.rows_of(log[k])
+        if s['id'] not in b.leaves or k >= len(b.leaves[s['id']].log):
+            raise Undrawn(f'leaf L{s["id"]} was sampled {len(b.leaves[s["id"]].log) if s["id"] in b.leaves else 0} time(s), call {k} needs draw {k}')
+        return gd.rows_of(b.leaves[s['id']].log[k])
     if op == 'predef':
         return gd.rows_of(s['cols'])
     if op == 'static':
